@@ -77,10 +77,30 @@ def searchFrom (items : List Item) (eol : Bool) : List Char → Bool
 def Re.isMatch (r : Re) (s : String) : Bool :=
   if r.bol then matchHere r.items r.eol s.toList else searchFrom r.items r.eol s.toList
 
-/-- the engine the driver runs with -/
+/-- `ext_community_to_string`; the link-bandwidth form (0x40,0x04) prints an `f32` and is
+    excluded from well-formed cases -/
+def extStr : Bytes → Option String
+  | [t, s, b2, b3, b4, b5, b6, b7] =>
+      let pre := if s = 2 then "rt" else "soo"
+      if t = 0 ∧ (s = 2 ∨ s = 3) then
+        some s!"{pre}:{b2 * 256 + b3}:{b4 * 16777216 + b5 * 65536 + b6 * 256 + b7}"
+      else if t = 2 ∧ (s = 2 ∨ s = 3) then
+        some s!"{pre}:{b2 * 16777216 + b3 * 65536 + b4 * 256 + b5}:{b6 * 256 + b7}"
+      else if t = 1 ∧ (s = 2 ∨ s = 3) then
+        some s!"{pre}:{b2}.{b3}.{b4}.{b5}:{b6 * 256 + b7}"
+      else if t = 3 ∧ s = 12 then some s!"encap:{b6 * 256 + b7}"
+      else if t = 64 ∧ s = 4 then some s!"lb:{b2 * 256 + b3}:?"
+      else if t = 67 ∧ s = 0 then
+        (if b7 = 0 then some "validation:valid" else if b7 = 1 then some "validation:not-found"
+         else if b7 = 2 then some "validation:invalid" else none)
+      else none
+  | _ => none
+
+/-- the instance the driver runs with -/
 def env : RegexEnv :=
   { valid := fun p => match classify p with | .ok _ => true | _ => false
-    «matches» := fun p s => match classify p with | .ok r => r.isMatch s | _ => false }
+    «matches» := fun p s => match classify p with | .ok r => r.isMatch s | _ => false
+    extStr := extStr }
 
 def supported (p : String) : Bool := match classify p with | .unsupported => false | _ => true
 
